@@ -56,6 +56,7 @@ constexpr bool kIsKv = SEQ_KEY == 1;
 
 // ------------------------------------------------------------------ crash attribution
 #include <csignal>
+#include <cstring>
 #include <unistd.h>
 static const char* volatile g_current_op = "none";
 static FILE* g_out_file = nullptr;
@@ -66,9 +67,24 @@ static void crash_handler(int sig) {
   if (g_out_file != nullptr) std::fflush(g_out_file);
   _exit(70);
 }
+// an operation that does not return (a lock word left write-locked by an earlier failed call, a cycle in a
+// corrupted tree) must end the run with a verdict, not hang it: every operation re-arms a watchdog
+static void hang_handler(int) {
+  char buf[128];
+  const int n = std::snprintf(buf, sizeof buf, "HANG op=%s did not return within 60 s\n", g_current_op);
+  if (n > 0) (void)!write(2, buf, static_cast<std::size_t>(n));
+  _exit(71);
+}
 struct OpMark {
-  explicit OpMark(const char* op) { g_current_op = op; }
-  ~OpMark() { g_current_op = "none"; }
+  const char* prev;
+  explicit OpMark(const char* op) : prev(g_current_op) {
+    g_current_op = op;
+    alarm(60);
+  }
+  ~OpMark() {
+    g_current_op = prev;
+    alarm(std::strcmp(prev, "none") == 0 ? 0 : 60);
+  }
 };
 
 #ifdef VERIF_HEAPWRAP
@@ -270,6 +286,7 @@ struct DriverT {
 
   // full observable state after a failed call (C08)
   void log_dump() {
+    const OpMark mark{"dump"};
     std::vector<Bytes> ks, rks;
     std::vector<std::vector<int>> vs;
     db->scan([&](const auto& v) {
@@ -1174,6 +1191,7 @@ int main(int argc, char** argv) {
   std::signal(SIGBUS, crash_handler);
   std::signal(SIGFPE, crash_handler);
   std::signal(SIGILL, crash_handler);
+  std::signal(SIGALRM, hang_handler);
   vh::Json out(f);
   {
     Driver d(out, seed);
